@@ -92,13 +92,16 @@ def units(tier):
         for i in range(0, len(maps), 25):
             out.append({'kind': 'rename', 'economy': name, 'country': c, 'maps': maps[i:i + 25]})
     pool = embedding_pool()
-    keys = sorted(k for k in pool if k != 'pc2')
+    keys = sorted(k for k in pool if k not in ('pc2', 'caps', 'lower'))
     for n in (2, 3):
         for sel in itertools.permutations(keys, n):
             for ext in (None, 'first', 'last'):
                 out.append({'kind': 'embed', 'selection': list(sel), 'ext': ext})
     for sel in itertools.permutations(keys, 2):
         out.append({'kind': 'embed', 'selection': list(sel), 'ext': None, 'interleaved': True})
+    for sel in (['caps', 'lower'], ['lower', 'caps'], ['caps', 'lower', 'sim'], ['sim', 'lower', 'caps']):
+        for ext in (None, 'last'):
+            out.append({'kind': 'embed', 'selection': sel, 'ext': ext})
     # the two treasury + central bank economies together (with at most one of the others), in every order
     for third in [None] + [k for k in keys if k != 'pc']:
         members = ['pc', 'pc2'] + ([third] if third else [])
@@ -230,7 +233,12 @@ def embedding_pool():
     # a second economy with a treasury and a central bank (same sector codes CB / TRE, same registered remittance as 'pc')
     pc2 = topo.base_country('N')
     pc2.update({'gov': 'TRECB', 'dep': 'const', 'mon': True, 'tax': 0.25, 'G': 'G7', 'a1': 0.7})
-    return {'sim': [sim], 'swapped': [swapped], 'simex': [simex], 'pc': [pc], 'fed': fed, 'pc2': [pc2]}
+    # two economies whose country codes differ only in letter case, their spending paths given through the string API
+    caps = topo.base_country('CA')
+    caps.update({'G': 'G7', 'string_api': True})
+    lower = topo.base_country('Ca')
+    lower.update({'G': 'Gstep', 'string_api': True, 'a1': 0.7, 'a2': 0.3})
+    return {'sim': [sim], 'swapped': [swapped], 'simex': [simex], 'pc': [pc], 'fed': fed, 'pc2': [pc2], 'caps': [caps], 'lower': [lower]}
 
 
 def economy_vars(sol_k, ccodes, multi_names):
